@@ -81,3 +81,75 @@ Qed.
 
 Theorem missing_directory_is_an_error t exts d : is_dir t d = false -> dir_ids t exts d = None /\ rec_dir_ids t exts d = None.
 Proof. intros H. unfold dir_ids, rec_dir_ids, spec_read_dir. now rewrite H. Qed.
+
+From Coq Require Import Lia.
+
+(* ---- the recursive directory asset is the union of the directory assets below it ---- *)
+Definition wf_tree (t : tree) : Prop :=
+  forall i x b, In (i, x, b) (tfiles t) -> exists p, parent i = Some p /\ is_dir t p = true.
+
+Lemma is_prefix_refl a : is_prefix a a = true.
+Proof. induction a as [|x r IH]; cbn; [reflexivity|]. now rewrite String.eqb_refl. Qed.
+
+Lemma is_prefix_app a b : is_prefix a (a ++ b) = true.
+Proof. induction a as [|x r IH]; cbn; [reflexivity|]. now rewrite String.eqb_refl. Qed.
+
+Lemma is_prefix_inv a b : is_prefix a b = true -> exists c, b = a ++ c.
+Proof.
+  revert b. induction a as [|x r IH]; intros b H; [now exists b|].
+  destruct b as [|y s]; [discriminate|]. cbn in H. apply andb_true_iff in H as [E H].
+  apply String.eqb_eq in E. subst y. destruct (IH s H) as [c ->]. now exists c.
+Qed.
+
+Lemma is_prefix_trans a b c : is_prefix a b = true -> is_prefix b c = true -> is_prefix a c = true.
+Proof.
+  intros H1 H2. apply is_prefix_inv in H1 as [u ->]. apply is_prefix_inv in H2 as [v ->].
+  rewrite <- app_assoc. apply is_prefix_app.
+Qed.
+
+Lemma removelast_prefix (i : id) : is_prefix (removelast i) i = true.
+Proof.
+  destruct i as [|x r]; [reflexivity|].
+  rewrite (app_removelast_last x (l := x :: r)) at 2 by discriminate. apply is_prefix_app.
+Qed.
+
+Lemma prefix_of_removelast (d i : id) :
+  is_prefix d i = true -> d <> i -> is_prefix d (removelast i) = true.
+Proof.
+  intros H N. apply is_prefix_inv in H as [c ->].
+  destruct c as [|y s] using rev_ind; [rewrite app_nil_r in N; contradiction|].
+  rewrite app_assoc, removelast_last. apply is_prefix_app.
+Qed.
+
+Theorem rec_dir_ids_is_the_union t exts d l :
+  wf_tree t -> rec_dir_ids t exts d = Some l ->
+  forall i, In i l <-> exists d' l', is_prefix d d' = true /\ dir_ids t exts d' = Some l' /\ In i l'.
+Proof.
+  intros W. unfold rec_dir_ids. destruct (is_dir t d) eqn:Dd; [|discriminate].
+  intros H; inversion H; subst l; clear H. intros i. rewrite in_flat_map. split.
+  - intros ([[j x] b] & Hin & Hi). cbn [fst snd] in Hi.
+    destruct (is_prefix d j) eqn:P; [|contradiction]. destruct (id_eqb d j) eqn:E; [contradiction|].
+    cbn [negb andb] in Hi. destruct (existsb (String.eqb x) exts) eqn:Ex; [|contradiction].
+    destruct Hi as [<-|[]]. destruct (W _ _ _ Hin) as (p & Hp & Dp).
+    assert (Nd : d <> j) by (intros ->; now rewrite id_eqb_refl in E).
+    assert (Pp : p = removelast j) by (destruct j; [discriminate|now inversion Hp]).
+    apply read_dir_iff_directory in Dp as [w Hw].
+    exists p. unfold dir_ids at 1. rewrite Hw. eexists. split; [subst p; now apply prefix_of_removelast|].
+    split; [reflexivity|].
+    apply (dir_ids_exact t exts p); [unfold dir_ids; now rewrite Hw|].
+    apply existsb_exists in Ex as (y & Hy & Exy). apply String.eqb_eq in Exy. subst y. eauto 6.
+  - intros (d' & l' & P & Hd & Hin). apply (dir_ids_exact t exts d' l' Hd) in Hin as (x & b & Hf & Hp & Hx).
+    exists (i, x, b). split; [exact Hf|]. cbn [fst snd].
+    assert (Pi : d' = removelast i /\ i <> []) by (destruct i; [discriminate|split; [now inversion Hp|discriminate]]).
+    destruct Pi as [-> Ni].
+    assert (P2 : is_prefix d i = true) by (eapply is_prefix_trans; [exact P|apply removelast_prefix]).
+    rewrite P2.
+    assert (E : id_eqb d i = false).
+    { destruct (id_eqb d i) eqn:E; [|reflexivity]. apply id_eqb_eq in E. subst d.
+      apply is_prefix_inv in P as [c Hc]. apply (f_equal (@List.length _)) in Hc. rewrite app_length in Hc.
+      pose proof (app_removelast_last EmptyString Ni) as Hl. apply (f_equal (@List.length _)) in Hl.
+      rewrite app_length in Hl. cbn in Hl. lia. }
+    rewrite E. cbn [negb andb].
+    assert (Ex : existsb (String.eqb x) exts = true) by (apply existsb_exists; exists x; split; [exact Hx|apply String.eqb_refl]).
+    rewrite Ex. now left.
+Qed.
